@@ -20,6 +20,7 @@ grammar: `*`, plain decimal 0..255 without leading zero, `x-y` with plain decima
 import NetaddrVerif.Lemmas.C17LBlock
 import NetaddrVerif.Lemmas.C17LTile
 import NetaddrVerif.Lemmas.C17LNmap
+import NetaddrVerif.Props.C05
 namespace NV.C17
 open NV NV.Glob
 
@@ -216,6 +217,15 @@ theorem range_to_globs_tiles_partial (lo hi : Nat) (hle : lo ≤ hi) (hhi : hi <
     ∃ gs ivs, iprangeToGlobs ⟨4, lo⟩ ⟨4, hi⟩ = .ok gs ∧ GlobsDenote gs ivs ∧ Tiles ivs lo hi :=
   range_to_globs_tiles_of_tile lo hi hle hhi (fun _ => cidrsTile_of_c05 lo hi hle hhi hC05)
 
+/-- **`iprange_to_globs` tiles every IPv4 interval exactly** — the full statement, with the C05
+    hypothesis discharged by `NV.C05.iprange_to_cidrs_addr` (both property files are now built
+    in one tree): valid globs whose denotations are consecutive intervals covering `[lo, hi]`
+    in ascending order. -/
+theorem range_to_globs_tiles (lo hi : Nat) (hle : lo ≤ hi) (hhi : hi < 2 ^ 32) :
+    ∃ gs ivs, iprangeToGlobs ⟨4, lo⟩ ⟨4, hi⟩ = .ok gs ∧ GlobsDenote gs ivs ∧ Tiles ivs lo hi := by
+  have h := NV.C05.iprange_to_cidrs_addr 32 lo hi hle hhi
+  exact range_to_globs_tiles_partial lo hi hle hhi ⟨h.canon, h.den, h.wf⟩
+
 /-- every CIDR block converts, through the inner function alone, to a valid glob denoting it
     (this is what the fallback path emits per block) -/
 theorem cidr_block_glob (v p : Nat) (hv : v < 2 ^ 32) (hp : p ≤ 32) :
@@ -242,6 +252,16 @@ theorem glob_to_cidrs_tiles_partial (s : List Char) (hv : validGlob s = true) :
   refine ⟨lo, hi, h1, hm, fun hc => ?_⟩
   obtain ⟨hb, ht⟩ := cidrsTile_of_c05 lo hi hle hhi hc
   exact ⟨_, glob_to_cidrs_eq s lo hi h1, hb, ht⟩
+
+/-- `glob_to_cidrs` of a valid glob tiles exactly the addresses matching the glob (full statement) -/
+theorem glob_to_cidrs_tiles (s : List Char) (hv : validGlob s = true) :
+    ∃ lo hi bs, globToIptuple s = .ok (lo, hi) ∧ (∀ a, (lo ≤ a ∧ a ≤ hi) ↔ GlobMatches s a) ∧
+      globToCidrs s = .ok bs ∧ (∀ b ∈ bs, b.val < 2 ^ 32 ∧ b.plen ≤ 32) ∧
+      Tiles (bs.map (fun b => (b.first 32, b.last 32))) lo hi := by
+  obtain ⟨lo, hi, h1, _, hle, hhi, hm⟩ := glob_denotes s hv
+  have h := NV.C05.iprange_to_cidrs_addr 32 lo hi hle hhi
+  obtain ⟨hb, ht⟩ := cidrsTile_of_c05 lo hi hle hhi ⟨h.canon, h.den, h.wf⟩
+  exact ⟨lo, hi, _, h1, hm, glob_to_cidrs_eq s lo hi h1, hb, ht⟩
 
 /-- `IPGlob(s)` of a valid glob: an object over exactly the denoted range whose printed glob is
     valid and denotes that same range -/
